@@ -18,7 +18,7 @@ for d in /verif/seeded/${SEEDGLOB:-C*}; do
   place=$(head -1 $d/demo_test.go | sed -n 's#.*place in: *\([^ ]*\).*#\1#p'); [ -z "$place" ] && place=.
   cp $d/demo_test.go $W/$place/zz_seed_demo_test.go
   rflag=""; case $id in C12*) rflag="-race";; esac
-  demo=$(cd $W && go test $rflag -vet=off -count=1 ./$place 2>&1 | grep -E "^(ok|FAIL|---)" | tail -1 | cut -c1-20)
+  demo=$(cd $W && go test $rflag -vet=off -count=1 ./$place 2>&1 | grep -aE "^(ok|FAIL|---)" | tail -1 | cut -c1-20)
   rm $W/$place/zz_seed_demo_test.go
   t0=$(date +%s)
   out=$(cd /verif && VERIF_REPO=$W VERIF_OUT=/tmp/seedout $H/vcheck run $prop 2>&1); rc=$?
